@@ -90,6 +90,35 @@ SHALLOW_COPIERS = ("builtins.dict", "builtins.list", "builtins.tuple",
                    "builtins.reversed")
 
 
+# attributes of evo's trajectory / result objects that hold numpy arrays
+NDARRAY_ATTRS = {"positions_xyz", "orientations_quat_wxyz", "timestamps",
+                 "_positions_xyz", "_orientations_quat_wxyz", "distances",
+                 "speeds", "error"}
+
+
+def _is_ndarray(t: T, depth: int = 0) -> bool:
+    """the value is a numpy array of numbers (by provenance)"""
+    if depth > 20 or not isinstance(t, T):
+        return False
+    if t.op == "attr":
+        return t.args[1] in NDARRAY_ATTRS
+    if t.op in ("sub", "named"):
+        return _is_ndarray(t.args[-1] if t.op == "named" else t.args[0],
+                           depth + 1)
+    if t.op == "binop":
+        return _is_ndarray(t.args[1], depth + 1) or \
+            _is_ndarray(t.args[2], depth + 1)
+    if t.op == "call":
+        n = tm.callee_name(t) or ""
+        if n.startswith("numpy.") and n not in ("numpy.array",
+                                                "numpy.asarray"):
+            return True
+        if n in ALIAS_METHODS or n == ".copy":
+            r = tm.method_recv(t)
+            return r is not None and _is_ndarray(r, depth + 1)
+    return False
+
+
 def _shallow_elements(c: T, depth: int = 0) -> Set[Tuple[str, str]]:
     """owners of the elements held by container value c when c is (a view
     of) a shallow copy: dict(x), list(x), x.copy(), copy.copy(x)"""
@@ -119,6 +148,8 @@ def _shallow_elements(c: T, depth: int = 0) -> Set[Tuple[str, str]]:
                 _shallow_elements(c.args[1][0], depth + 1)
         if n == ".copy":
             r = tm.method_recv(c)
+            if r is not None and _is_ndarray(r):
+                return set()     # ndarray.copy(): new numbers, nothing shared
             # dict.copy / list.copy are shallow (ndarray.copy is a deep
             # copy of numbers: its elements have no identity to share)
             return (roots(r, depth + 1) | _shallow_elements(r, depth + 1)) \
